@@ -106,6 +106,53 @@ func runC03(c *Ctx) {
 	if f := c.P.Func("align", "", "NewPartitionSet"); f != nil {
 		bscope[f] = true
 	}
+	// library functions the parsers call on file-controlled data (call graph from the parser functions,
+	// restricted to package align)
+	nReach := 0
+	{
+		// static callees only (callbacks handed to iterators belong to other operations)
+		var work []*ssa.Function
+		for _, f := range scope {
+			work = append(work, f)
+		}
+		seen := map[*ssa.Function]bool{}
+		for len(work) > 0 {
+			f := work[len(work)-1]
+			work = work[:len(work)-1]
+			if seen[f] {
+				continue
+			}
+			seen[f] = true
+			allInstrs(f, func(in ssa.Instruction) {
+				cc := callOf(in)
+				if cc == nil {
+					return
+				}
+				var targets []*ssa.Function
+				if g := cc.StaticCallee(); g != nil {
+					targets = append(targets, g)
+				} else if cc.IsInvoke() {
+					// interface call on align.SeqBag / align.Alignment / align.Sequence: the repository's implementations
+					for _, tn := range []string{"*align", "*seqbag", "*seq"} {
+						if g := c.P.Func("align", tn, cc.Method.Name()); g != nil {
+							targets = append(targets, g)
+						}
+					}
+				}
+				for _, g := range targets {
+					if g.Blocks == nil || g.Synthetic != "" || !c.P.InModule(g) || g.Pkg == nil || !strings.HasSuffix(g.Pkg.Pkg.Path(), "/align") {
+						continue
+					}
+					if !bscope[g] {
+						bscope[g] = true
+						nReach++
+					}
+					work = append(work, g)
+				}
+			})
+		}
+	}
+	L.Note("bounds scope: %d functions of package align are reachable from the parsers and were added", nReach)
 	pkgs := []string{"./align/"}
 	for _, r := range c03Pkgs {
 		pkgs = append(pkgs, "./"+r+"/")
@@ -173,6 +220,24 @@ func runC03(c *Ctx) {
 		L.ControlMustFire("tainted-alloc", fired && silent, "controls/taint.go: make([]string, n) with n from ParseInt must be flagged, the bounded variant must not")
 	}
 	c.checkNonEmptyResult()
+	// the error of a multi-alignment stream is published before the channel is closed
+	L.Rule("error-before-close", "ParseMultiple stores the parsing error into the channel structure before it closes the channel: a consumer that sees the channel closed reads the final error, never a stale nil")
+	if r := c.fn("io/phylip", "*Parser", "ParseMultiple"); r.ok() {
+		var errStore, cl ssa.Instruction
+		allInstrs(r.F, func(in ssa.Instruction) {
+			if st, ok := in.(*ssa.Store); ok {
+				if _, f, fa := fieldAddrOf(st.Addr); fa != nil && f == "Err" {
+					errStore = in
+				}
+			}
+			if cc := callOf(in); cc != nil && builtinName(cc) == "close" {
+				cl = in
+			}
+		})
+		ok := errStore != nil && cl != nil && instrDominates(errStore, cl)
+		L.Check(ok, "error-before-close", r.label, "aligns.Err = err ≺ close(aligns.Achan)", c.P.Pos(r.F.Pos()), "the store dominates the close", "the channel is closed before (or without) the error being stored: a truncated stream looks like a clean end of stream to a concurrent consumer")
+	}
+	L.Floor("error-before-close", 1, "ParseMultiple")
 	L.Note("functions in parser scope: %d; token loops: %d", len(scope), nTok)
 	L.Trusts("sparse conditional constant propagation; once the reader is exhausted every later read fails (bufio.Reader semantics)")
 	L.Assumes("steady-state lemma: after a scan has returned EOF every later scan returns EOF; a loop that re-reads one pushed-back non-EOF token without progress is a different defect class and is not decided")
